@@ -99,11 +99,13 @@ impl UpdaterState {
             release_version.to_owned(),
             patch_public_key,
         );
+        // Ensure we clear any patch data if we're creating a new state. This must happen before
+        // the new release version is recorded: if we are interrupted in between, the version
+        // mismatch is detected again on the next load and the reset is retried.
+        let _ = state.patch_manager.reset();
         if let Err(e) = state.save() {
             shorebird_warn!("Error saving state {:?}, ignoring.", e);
         }
-        // Ensure we clear any patch data if we're creating a new state.
-        let _ = state.patch_manager.reset();
         state
     }
 
